@@ -358,6 +358,16 @@ func (e *SpecEnv) field(base Term, name string, at ast.Node) Term {
 		return e.fail("field %s of untyped value", name)
 	}
 	obj, path, _ := types.LookupFieldOrMethod(base.T, true, e.pkg, name)
+	if obj == nil {
+		// contracts are ghost code: an unexported field of a type of another repository package may be named
+		bt := base.T
+		if pt, ok := bt.Underlying().(*types.Pointer); ok {
+			bt = pt.Elem()
+		}
+		if nm, ok := bt.(*types.Named); ok && nm.Obj().Pkg() != nil && u.eng.isRepoPkg(nm.Obj().Pkg().Path()) {
+			obj, path, _ = types.LookupFieldOrMethod(base.T, true, nm.Obj().Pkg(), name)
+		}
+	}
 	if f, ok := obj.(*types.Func); ok {
 		mv := "mv_" + sanitize(f.FullName())
 		rs := u.c.sortOf(base.T)
